@@ -1,5 +1,5 @@
 """C10 — WhenAny completes once with the right winner for each fail policy (structural clauses)."""
-from rules import lib_accessor, lib_order, lib_when
+from rules import lib_accessor, lib_core, lib_order, lib_when
 
 ANY_FILES = ['include/yaclib/async/when/any.hpp']
 
@@ -23,12 +23,15 @@ def run(ctx):
     rw = ctx.rule('R-WORD', 'election words are only loaded or modified by an RMW', minimum=8)
     ro = ctx.rule('R-ORDER', 'election word orders', minimum=8)
     rc = ctx.rule('R-CASKIND', 'Any<FirstFail> empty->error CAS is strong', minimum=0)
+    rnr = ctx.rule('R-NODEREUSE', 'one callback object is registered on at most one shared core (intrusive next link)',
+                   minimum=4)
     ctx.assume('a Result delivered to a combinator is never Empty')
     for cfg, fb in sorted(fbs.items()):
         fns = lib_accessor.functions_with_accessors(fb, ANY_FILES)
         if not fns:
             ctx.broken('no accessor call found in when/any.hpp (%s)' % cfg)
         lib_accessor.check(ctx, fb, ra, fns, EXEMPT)
+        lib_core.check_node_reuse(ctx, fb, rnr, lambda f: 'async/when' in f.file)
         lib_when.check_setonce(ctx, fb, rs, ('yaclib::when::Any',))
         lib_when.check_lastfail(ctx, fb, rl)
         lib_when.check_saved_error(ctx, fb, re_)
